@@ -264,4 +264,3 @@ func classHead(cls string) string {
 	}
 	return cls
 }
-
